@@ -292,7 +292,7 @@ func runC14(c *Ctx) {
 			default:
 				k += "!unknown-tag(" + tag + ")"
 			}
-			got = append(got, f.Name()+":"+k)
+			got = append(got, f.Name()+":"+k) // exported wire fields: real names, renaming them changes the API
 		}
 		nLay++
 		c.R.Check(strings.Join(got, " ") == layout[nm], r6, "wamp."+nm, "field layout", c.P.Pos(tn.Pos()),
